@@ -1023,6 +1023,8 @@ impl SQLExpression for BinaryOperator {
         use BinaryOperator::*;
         match self {
             Minus | Divide | Modulo => Associativity::Left,
+            // comparisons are not associative: `a = (b = c)` must keep its parentheses
+            Gt | Lt | GtEq | LtEq | Eq | NotEq => Associativity::Left,
             _ => Associativity::Both,
         }
     }
